@@ -76,6 +76,25 @@ class FIXContainer:
                 else:
                     self.set(t, v)
 
+    @staticmethod
+    def _tag_key(tag: str | int) -> str:
+        """Validates tag (must be an integer) and returns its dictionary key."""
+        try:
+            # tag also might be an FTag enum (so cast to str first)
+            int(str(tag))
+        except ValueError:
+            raise FIXMessageError("Tags must be only integers")
+        return str(tag)
+
+    def _content(self) -> tuple:
+        """Comparable tag / value / groups structure of the container."""
+        result = []
+        for tag, value in self.tags.items():
+            if isinstance(value, _FIXRepeatingGroupContainer):
+                value = tuple(g._content() for g in value.groups)
+            result.append((tag, value))
+        return tuple(result)
+
     def set(self, tag: str | int, value, replace: bool = False):
         """Set tag value.
 
@@ -88,13 +107,7 @@ class FIXContainer:
             DuplicatedTagError: when trying to set existing tag
             FIXMessageError: tag value is not convertible to int
         """
-        try:
-            # tag also might be an FTag enum (so cast to str first)
-            int(str(tag))
-        except ValueError:
-            raise FIXMessageError("Tags must be only integers")
-
-        t = str(tag)
+        t = self._tag_key(tag)
 
         if _isclass(value):
             # Case for setting tags as errors (allow overwriting by Exception)
@@ -167,7 +180,7 @@ class FIXContainer:
         Raises:
             FIXMessageError: incorrect group type/value
         """
-        tag = str(tag)
+        tag = self._tag_key(tag)
 
         if isinstance(group, dict):
             group = FIXContainer(group)
@@ -193,7 +206,7 @@ class FIXContainer:
             DuplicatedTagError: group with the same tag already exists
             FIXMessageError: incorrect group type/value
         """
-        tag = str(tag)
+        tag = self._tag_key(tag)
 
         if tag in self:
             raise DuplicatedTagError(f"group with {tag=} already exists")
@@ -348,9 +361,8 @@ class FIXContainer:
         Raises:
             FIXMessageError: group comparison not supported
         """
-        # if our string representation looks the same, the objects are equivalent
         if isinstance(other, FIXContainer):
-            return self.__str__() == other.__str__()
+            return self._content() == other._content()
         elif isinstance(other, dict):
             ignore_tags = {
                 FTag.BeginString,
@@ -370,6 +382,8 @@ class FIXContainer:
                 return False
 
             for t, v in other.items():
+                if str(t) in ignore_tags:
+                    continue
                 if self.is_group(t):
                     raise FIXMessageError(
                         "fix message __eq__ (dict) supports only simple tags, got group"
